@@ -130,9 +130,10 @@ def mk : IO Handler := do
         match o with
         | none => return s!"noconn {summary s}"
         | some res =>
+          let idle ← idleR.get
           let sh := match res.sessHdr with
             | none => "-"
-            | some id => s!"{id}:{Rtsp.Sess.Timer.advertised (← idleR.get)}"
+            | some id => s!"{id}:{Rtsp.Sess.Timer.advertised idle}"
           return s!"st {res.status} cs {optNat res.cseq} sh {sh} ch {optNat res.chan} cl {b2s (res.err == .fail)} {summary s}"
       | none => return "bad-op"
     | _ => return "bad-op"
